@@ -74,14 +74,14 @@ theorem C08_unauthenticated (d : Defects) (own : Key) (w₀ : World) (hw : WInv 
 
 /-- **C08_partial.** For the code as it is, after any history: every data-bearing answer names a room
     of the allowed table and contains only rows of that room; every room of the allowed table was
-    admitted for the proven key `k` at a time `t ≤ now` at which, in the definition of the room then in
-    force, `k` was a valid member (room list) — or, on a definition change, merely *named* in a user
-    list (`has_user`). What is missing with respect to the full statement: membership NOW (no
-    revocation on a live connection) and validity of the entry on the event path (both witnessed below). -/
+    admitted for the proven key `k` at a time `t ≤ now` at which `k` was a VALID member according to
+    the definition of the room then in force (room list, or definition-change event since fix
+    81b6434). What is missing with respect to the full statement: membership NOW — a room is never
+    revoked on a live connection (witness below). -/
 theorem C08_partial (own : Key) (w₀ : World) (hw : WInv w₀) (ops : List Op) (q : Query) :
     let s := reach Defects.asImplemented own w₀ ops
     (∀ r ∈ s.c.allowed, ∃ k, s.c.key = some k ∧ ∃ p ∈ s.w.history, ∃ t, p.2.id = r ∧ p.1 ≤ t ∧ t ≤ s.w.now ∧
-        (p.2.isUserValidAt k t = true ∨ p.2.hasUser k = true)) ∧
+        p.2.isUserValidAt k t = true) ∧
     (∀ r items, (serve Defects.asImplemented serveTable s.w own s.c q).2 = .data r items →
       r ∈ s.c.allowed ∧ ∀ it ∈ items, it.room = some r ∨ (q.kind = .peersForRoom ∧ it.room = none)) ∧
     (∀ rooms, (serve Defects.asImplemented serveTable s.w own s.c q).2 = .roomList rooms →
@@ -90,25 +90,23 @@ theorem C08_partial (own : Key) (w₀ : World) (hw : WInv w₀) (ops : List Op) 
   have hi : Inv Defects.asImplemented s := run_inv (inv_init hw) ops
   refine ⟨fun r hr => ?_, fun r items h => ?_, fun rooms h => serve_roomList_sound good h⟩
   · obtain ⟨k, hk, p, hp, t, h1, h2, h3, h4⟩ := hi.admitted r hr
-    exact ⟨k, hk, p, hp, t, h1, h2, h3, h4.imp id (·.2)⟩
+    refine ⟨k, hk, p, hp, t, h1, h2, h3, ?_⟩
+    rcases h4 with h | ⟨h, _⟩
+    · exact h
+    · cases h
   · obtain ⟨hq, hc, hit, _⟩ := serve_data_sound good h
     exact ⟨by simpa using hc, hit ▸ fetch_room s.w q r hq⟩
 
-/-- **C08_partial (strict admission).** With the event path testing validity instead of `has_user`
-    (switch `hasUserCountsDisabled` off, revocation still missing): every allowed room had the key as a
-    valid member at some time `t ≤ now`, according to the definition then in force. -/
-theorem C08_partial_member_when_admitted (own : Key) (w₀ : World) (hw : WInv w₀) (ops : List Op) :
-    let d : Defects := { allowedNeverRevoked := true, hasUserCountsDisabled := false }
-    let s := reach d own w₀ ops
+/-- the weaker statement that held before fix 81b6434 (`has_user` on the event path): admission by a
+    valid membership *or* by merely being named in a user list -/
+theorem C08_partial_beforeFix (own : Key) (w₀ : World) (hw : WInv w₀) (ops : List Op) :
+    let s := reach Defects.beforeFix own w₀ ops
     ∀ r ∈ s.c.allowed, ∃ k, s.c.key = some k ∧ ∃ p ∈ s.w.history, ∃ t, p.2.id = r ∧ p.1 ≤ t ∧ t ≤ s.w.now ∧
-      p.2.isUserValidAt k t = true := by
-  intro d s r hr
-  have hi : Inv d s := run_inv (inv_init hw) ops
+      (p.2.isUserValidAt k t = true ∨ p.2.hasUser k = true) := by
+  intro s r hr
+  have hi : Inv Defects.beforeFix s := run_inv (inv_init hw) ops
   obtain ⟨k, hk, p, hp, t, h1, h2, h3, h4⟩ := hi.admitted r hr
-  refine ⟨k, hk, p, hp, t, h1, h2, h3, ?_⟩
-  rcases h4 with h | ⟨h, _⟩
-  · exact h
-  · cases h
+  exact ⟨k, hk, p, hp, t, h1, h2, h3, h4.imp id (·.2)⟩
 
 /-! ### 3. witnesses: the full statement fails for the code (DESIGN.md §4, site 25) -/
 
@@ -141,17 +139,18 @@ theorem C08_breaks_allowedNeverRevoked :
       (reach Defects.none O World.empty ops).c (.nodes 7 [1, 2, 3])).2 = .refused := by
   decide
 
-/-- **C08_breaks_hasUserCountsDisabled.** A key that was never a valid member of room 8 (its only
-    entry is a disabled one) gets the room admitted by the definition-change event and is served. -/
-theorem C08_breaks_hasUserCountsDisabled :
+/-- **C08_fixed_hasUserCountsDisabled (regression witness, fix 81b6434).** A key that was never a
+    valid member of room 8 (its only entry is a disabled one) was admitted by the definition-change
+    event and served by the code BEFORE the fix; the code as it is refuses. -/
+theorem C08_fixed_hasUserCountsDisabled :
     let ops : List Op := [.advance 5, .auth K true, .advance 10, .install roomDisabledOnly, .world addRows, .advance 20]
-    let s := reach Defects.asImplemented O World.empty ops
+    let s := reach Defects.beforeFix O World.empty ops
+    let s' := reach Defects.asImplemented O World.empty ops
     (∀ u ∈ roomDisabledOnly.admins ++ roomDisabledOnly.auths.flatMap (fun a => a.users ++ a.userAdmins),
       u.key = K → u.enabled = false) ∧
-    (serve Defects.asImplemented serveTable s.w O s.c .roomList).2 = .roomList [] ∧
-    (serve Defects.asImplemented serveTable s.w O s.c (.nodes 8 [2])).2 = .data 8 [⟨some 8, 2⟩] ∧
-    (serve Defects.none serveTable (reach Defects.none O World.empty ops).w O
-      (reach Defects.none O World.empty ops).c (.nodes 8 [2])).2 = .refused := by
+    (serve Defects.beforeFix serveTable s.w O s.c .roomList).2 = .roomList [] ∧
+    (serve Defects.beforeFix serveTable s.w O s.c (.nodes 8 [2])).2 = .data 8 [⟨some 8, 2⟩] ∧
+    (serve Defects.asImplemented serveTable s'.w O s'.c (.nodes 8 [2])).2 = .refused := by
   decide
 
 /-! ### non-vacuity -/
